@@ -165,6 +165,9 @@ def probe_unlisted(api, st, step, derive, read_smiles, compare, decode=None):
     except api.DecoderError:
         st.problem("decoder(%r) raised DecoderError under the table last accepted" % "".join(toks))
         return
+    except Exception as ex:  # noqa  (an exception of the package, e.g. a table left without '?': judged, not a harness error)
+        st.problem("decoder(%r) raised %s under the table last accepted" % ("".join(toks), type(ex).__name__))
+        return
     d = derive(toks, st.cur)
     if d.error is not None:
         st.problem("probe outside the grammar?")
